@@ -6,6 +6,8 @@
 #include <thread>
 #include <set>
 #include <mutex>
+#include <memory>
+#include <cstring>
 
 using namespace vh;
 using namespace ipr;
@@ -124,6 +126,22 @@ static void check_routes(impl::Lexicon& lex, Rng& rng, std::uint64_t inst)
          tcount("routes_checked"); teval(3, i * 2 + v, inst);
          if (&t != &want) tviol("route:identifier->as-type:lookalike", "get_as_type(get_identifier(\"" + sp + "\")) is not the built-in type");
          if (&id != &want.name()) tviol("route:identifier:lookalike", "get_identifier(\"" + sp + "\") is not the Identifier naming the built-in type");
+      }
+      // the spelling given as a view into a longer buffer: the front of another reserved word, the front of arbitrary text,
+      // and an exact-size heap buffer with no terminator -- what is asked is what the view covers, nothing beyond it
+      {
+         std::vector<std::string> carriers { sp + " long", sp + " double", sp + "16_t", sp + "++", sp + "_t", sp + std::string(1, '\0') + "tail", sp + " x;" };
+         for (auto w : reserved_words) { std::string r = narrow(w); if (r.size() > sp.size() && r.compare(0, sp.size(), sp) == 0) carriers.push_back(r); }
+         for (auto& c : carriers) {
+            util::word_view v(reinterpret_cast<const char8_t*>(c.data()), sp.size());
+            auto& id = lex.get_identifier(v);
+            tcount("routes_through_a_view_into_a_longer_buffer");
+            if (&id != &want.name() || &lex.get_as_type(id) != &want || &lex.get_string(v) != &util::view<Identifier>(want.name())->string())
+               tviol("route:view-into-longer-buffer:lookalike", "get_identifier / get_string of the first " + std::to_string(sp.size()) + " characters of \"" + c + "\" is not the node of \"" + sp + "\"");
+         }
+         std::unique_ptr<char8_t[]> exact(new char8_t[sp.size()]); std::memcpy(exact.get(), sp.data(), sp.size());
+         util::word_view v(exact.get(), sp.size());
+         if (&lex.get_identifier(v) != &want.name()) tviol("route:unterminated-buffer:lookalike", "get_identifier of an exact-size unterminated buffer spelling \"" + sp + "\" is not the built-in's name");
       }
       // near misses must NOT yield a constant
       std::string near[] = { sp + " ", " " + sp, sp.substr(0, sp.size() - 1), sp + sp, std::string(1, char(sp[0] ^ 0x20)) + sp.substr(1) };
